@@ -1482,13 +1482,16 @@ Qed.
 
 (** ** H. the pipeline over the two passes *)
 
-From Shexer Require Import Model.Freq Model.Run.
+From Shexer Require Import Model.Freq Model.Run Model.RunCur.
 
 Section Run2Proofs.
   Variable fa : FreqAlg.
 
-  (** when both passes deliver the same list the two-pass pipeline is [Run.run_shapes] *)
-  Lemma run_shapes2_same c thr g : run_shapes2 fa c thr g g = run_shapes fa c thr g.
+  (** when both passes deliver the same list the two-pass pipeline is the one-document
+      pipeline with the shexing stage in the order the code has ([RunCur.run_shapes_cur];
+      it equals [Run.run_shapes] where Proofs/OrderIrrelevant.v shows the order to be
+      irrelevant) *)
+  Lemma run_shapes2_same c thr g : run_shapes2 fa c thr g g = run_shapes_cur fa c thr g.
   Proof. reflexivity. Qed.
 
   Definition tmode_of (c : rcfg) : tmode := match r_targets c with Some l => TClasses l | None => TAll end.
@@ -1682,7 +1685,7 @@ Section ChannelIndependence.
     Forall2 (stored_as gunzip unxz cm) (map render_lines lss) stored ->
     rd_stream (chan o fmt None (SRaw (render_lines (List.concat lss)))) = inl ms ->
     graph_of_m ms = Some G ->
-    run_over_passes fa c thr (passes1 o1 o2 fmt cm (SFiles stored)) = Some (run_shapes fa c thr G).
+    run_over_passes fa c thr (passes1 o1 o2 fmt cm (SFiles stored)) = Some (run_shapes_cur fa c thr G).
   Proof.
     intros F LC Hb C Hok Hst Hraw HG. unfold run_over_passes, graphs_of_passes, passes. cbn [fst snd].
     rewrite (partition_invisible_files pyfloat read_nt read_ttl gunzip unxz unzip rdf_parse fmt read o1 o cm lss stored F LC Hb C Hok Hst).
@@ -1706,7 +1709,7 @@ Section ChannelIndependence.
     tsv_dom g = true -> Forall line_ok (map tsv_line_of g) ->
     List.concat lss = map tsv_line_of g -> cm_plain cm ->
     Forall2 (stored_as gunzip unxz cm) (map render_lines lss) stored ->
-    run_over_passes fa c thr (passes1 o1 o2 (Str "tsv_spo") cm (SFiles stored)) = Some (run_shapes fa c thr (kinded g)).
+    run_over_passes fa c thr (passes1 o1 o2 (Str "tsv_spo") cm (SFiles stored)) = Some (run_shapes_cur fa c thr (kinded g)).
   Proof.
     intros Hd Hok Hc C Hst.
     destruct (tsv_channel_kinded pyfloat read_nt read_ttl gunzip unxz unzip rdf_parse o1 g Hd Hok) as [H1 H2].
